@@ -38,7 +38,7 @@ class C20(Prop):
                   'against RxRSocket / ReactiveXClient over a real client (harness as server) and against both handler adapters behind a real server with a recording delegate.')
     level_note = 'Trusted: Lean kernel + standard axioms; Rx 3.2 / ReactiveX 4 operator internals; the delegation theorem is a table and says so.'
     design_ref = '§5 C20'
-    rule = ('both Rx versions x interaction (stream, channel inbound, response, fire-and-forget, metadata-push, setup) x element count 0/1/many x request limit 1..max x error position (streams; response observables that fail at once, after their element, or later) x '
+    rule = ('both Rx versions x interaction (stream, channel inbound, response, fire-and-forget, metadata-push, setup) x element count 0/1/many x request limit 1..max x responses of data, metadata or both x error position (streams; response observables that fail at once, after their element, or later) x '
             'disposal moment x delivery pacing by the harness; 2..3 connections served through one handler-factory wrapper (each must get a delegate of its own, as with the core API); a CANCEL from the requester while the delegate\'s source (back-pressure factory over a gated async generator, or a Subject) has credit outstanding and more to give; non-trivial = more elements than the request limit, an error, a disposal or a one-way request through the handler adapter; '
             'distinct = distinct case')
     assumptions = []
